@@ -295,6 +295,37 @@ class CropSplit(Contract):
                     Implies(a["produced"][i] >= a["eaten"][i], new[i] == 0)}
 
 
+class MonthlyList(Contract):
+    """Extractor.to_monthly_list on its own: one value per month, each exactly the solved variable's value x the
+    conversion - nothing is dropped, zeroed or rounded on the way to the report (any horizon; replayable)."""
+    prop = "C04"
+    file = EX
+    func = "Extractor.to_monthly_list"
+    name = "every_month_is_value_x_conversion"
+    merge = True
+
+    def inputs(self, S):
+        n = S.int("N")
+        S.assume(And(n >= 1, n <= 240))
+        vals = S.series("value", n, nd=False)
+        S.forall(n, lambda i: vals[i] >= 0)
+        conv = S.real("conversion")
+        S.assume(conv > 0)
+        holder = S.cls(EX, "Extractor")
+        va = unwrap(vals)
+        if va.concrete_len():
+            variables = [Obj(holder, {"varValue": va.get(k)}) for k in range(va.length)]
+        else:
+            variables = Arr(va.length, fn=lambda i: Obj(holder, {"varValue": va.get(i)}), dtype="object", is_nd=False)
+        ext = S.obj(EX, "Extractor", constants={"NMONTHS": unwrap(n)})
+        return dict(args=[ext, variables, conv], n=n, vals=vals, conv=conv)
+
+    def ensures(self, S, a, res):
+        i = S.idx("i", a["n"])
+        return {"reported_value_is_solved_value_x_conversion": res[i] == a["vals"][i] * a["conv"],
+                "one_value_per_month": _length(res) == a["n"]}
+
+
 class FloorCarried(Contract):
     """The secondary solves carry  0.99995 x optimum <= consumed_kcals(m)  for EVERY month m, so the headline read
     from the final solve is at least 0.99995 x the optimiser's own optimum (0.005 % < 0.01 %)."""
@@ -305,13 +336,15 @@ class FloorCarried(Contract):
     replayable = False
     pop_small = False
 
-    def __init__(self, pop_small=False):
-        self.pop_small = pop_small
-        self.name = "floor_for_every_month" + ("[population<1e7]" if pop_small else "[population>=1e7]")
+    def __init__(self, pop_small=False, store=True, resources=("stored_food",)):
+        self.pop_small, self.store, self.resources = pop_small, store, tuple(resources)
+        self.name = ("floor_for_every_month" + ("[population<1e7]" if pop_small else "[population>=1e7]")
+                     + ("" if store and self.resources == ("stored_food",) else
+                        f"[{'storage' if store else 'no_storage_between_years'},{'+'.join(self.resources)}]"))
         super().__init__()
 
     def inputs(self, S):
-        w = lp.World(S, ["stored_food"], pop_small=self.pop_small)
+        w = lp.World(S, list(self.resources), store_between_years=self.store, pop_small=self.pop_small)
         from pyvc.pulpmodel import LpModel
         model = LpModel("m", -1)
         opt_val = S.real("first_solve_optimum")
@@ -338,7 +371,9 @@ class FloorCarried(Contract):
         return {"floor_constraint_added_for_every_month": And(V(ok), goal)}
 
 
-CONTRACTS = [Reporting(), Rounding(), Headline(), CropSplit(), FloorCarried(False), FloorCarried(True)]
+CONTRACTS = [Reporting(), Rounding(), Headline(), CropSplit(), MonthlyList(), FloorCarried(False), FloorCarried(True)] + [
+    FloorCarried(ps, st, res) for ps in (False, True) for st in (True, False)
+    for res in (("stored_food", "meat"), ("stored_food", "meat", "outdoor_crops", "seaweed", "methane_scp", "cellulosic_sugar"))]
 TRUSTED = [
     "machine floats treated as mathematical reals; round() exact half-even (stored food / outdoor crops are reported after rounding to 3 decimals of a percent: those two contributions are proved to within 0.0005 percentage points, everything else exactly)",
     "constants['KCALS_MONTHLY'/'FAT_MONTHLY'/'PROTEIN_MONTHLY'] handed to the Extractor are the class-level conversion settings (Parameters.set_nutrition_per_month)",
